@@ -34,7 +34,9 @@ AggExprs(t) ==
               <<Fn2("add", Col(g), Agg("max", Col(c))),
                 Fn2("add", Agg("sum", Col(c)), Cast(Col(g), "float")),
                 Case1D(Fn2("gt", Col(g), LitI(1)), Agg("sum", Col(c)), LitI(0)),
-                Case1D(Fn1("is_null", Col(g)), LitI(-1), Agg("count", Col(c)))>>))))
+                Case1D(Fn1("is_null", Col(g)), LitI(-1), Agg("count", Col(c)))>>
+              \* a (non-constant) grouping column in one branch, an aggregate in the other: FunctionTypeError
+              \o (IF g \notin t.cst THEN <<Case1D(Fn2("gt", Col(g), LitI(1)), Col(g), Agg("sum", Col(c)))>> ELSE <<>>)))))
 
 MovesAgg(h, kn) ==
     LET i  == Len(h)
@@ -55,6 +57,9 @@ MovesAgg(h, kn) ==
          \o (IF Len(t.vis) >= 2 THEN <<MSelect(i, <<Col(t.vis[Len(t.vis)])>>)>> ELSE <<>>)
     ELSE IF t.part # <<>>
     THEN MapS(ae, LAMBDA e : MSummarize(i, <<KV("s", e)>>))
+         \* grouping again by a column the table is grouped by already (alone / next to a new one): it counts once
+         \o (IF Len(t.part) = 1 THEN <<MGroupBy(i, <<Col(t.part[1])>>, TRUE)>>
+                                      \o MapS(Take(SelectSeq(iv, LAMBDA c : c # t.part[1]), 1), LAMBDA c : MGroupBy(i, <<Col(c), Col(t.part[1])>>, TRUE)) ELSE <<>>)
          \o (IF Len(ae) >= 2 THEN <<MSummarize(i, <<KV("s", ae[1]), KV("n", Len0)>>)>> ELSE <<>>)
          \* an aggregate named like a grouping column replaces it in the result
          \o (IF ae # <<>> THEN <<MSummarize(i, <<KV(gname[1], ae[1])>>), MSummarize(i, <<KV("s", Len0), KV(gname[1], ae[1])>>)>> ELSE <<>>)
@@ -73,7 +78,9 @@ MovesAgg(h, kn) ==
              THEN <<MMutate(i, <<KV("k", Fn2("mod", Col(iv[1]), LitI(2)))>>),
                     \* a key whose VALUES are literals but whose condition is a column: not a constant
                     MMutate(i, <<KV("k", Case1D(Fn2("gt", Col(iv[1]), LitI(1)), LitI(1), LitI(0)))>>),
-                    MMutate(i, <<KV("k", Case1(Fn1("is_null", Col(iv[1])), LitI(7)))>>)>> ELSE <<>>)
+                    MMutate(i, <<KV("k", Case1(Fn1("is_null", Col(iv[1])), LitI(7)))>>),
+                    \* a constant key: one group (none for an empty input)
+                    MMutate(i, <<KV("k", LitI(1))>>)>> ELSE <<>>)
          \o MapS(SelectSeq(iv, LAMBDA c : t.nm[c] = "k"), LAMBDA c : MGroupBy(i, <<Col(c)>>, FALSE))
          \o MapS(Take(iv, 1), LAMBDA c : MFilter(i, <<Fn2("gt", Col(c), LitI(1))>>))
          \o MapS(Take(iv, 1), LAMBDA c : MFilter(i, <<Fn2("gt", Col(c), LitI(100))>>))
@@ -105,6 +112,8 @@ WinExprs(t) ==
         \o <<Win("cum_sum", <<Col(x)>>, <<>>)>>          \* arrange=[]: the current row order (value undefined here, the query must still compile)
         \o <<Agg("sum", Col(x)), Agg("max", Col(iv[1])), Len0>>
         \o <<Win("row_number", <<>>, <<>>), Shift(Col(x), 1, <<>>, <<>>)>>
+        \* the offset as a constant expression (pdt.lit(1) + 1): Polars evaluates it, a SQL back end may refuse (NotSupportedError)
+        \o MapS(o2, LAMBDA os : ShiftX(Col(x), 2, <<>>, os))
         \o Flat(MapS(gp, LAMBDA g : <<WinP("row_number", <<>>, IF o2 = <<>> THEN o1[1] ELSE o2[1], <<Col(g)>>),
                                       AggP("sum", Col(x), <<Col(g)>>),
                                       WinP("cum_sum", <<Col(x)>>, IF o2 = <<>> THEN o1[1] ELSE o2[1], <<Col(g)>>)>>))
@@ -328,6 +337,9 @@ TyExprs(t) ==
                 Shift(Col(p), -1, <<>>, <<Ord(Col(c), FALSE, "first"), Ord(Col(p), FALSE, "last")>>),
                 Shift(Col(c), -1, <<LitI(0)>>, <<Ord(Col(c), FALSE, "first"), Ord(Col(p), FALSE, "last")>>)>>))))
         \o <<LitI(3), LitB(TRUE), LitN>>
+        \* typed null literals: an all-null column of the stated type, and as operand
+        \o <<LitTN("float"), LitTN("int"), LitTN("bool"), LitTN("str")>>
+        \o MapS(a, LAMBDA c : Fn2("add", LitTN("float"), Col(c))) \o MapS(a, LAMBDA c : Fn2("fill_null", LitTN("int"), Col(c)))
 
 MovesTy(h, kn) ==
     LET i  == Len(h)
@@ -415,6 +427,7 @@ MovesErr(h, kn) ==
         \o <<MSelect(i, <<CN("zz")>>), MDrop(i, <<CN("zz")>>), MGroupBy(i, <<CN("zz")>>, FALSE)>>
         \o MapS(hid, LAMBDA c : MSelect(i, <<Col(c)>>))                                          \* re-select a hidden column
         \o MapS(hid, LAMBDA c : MGroupBy(i, <<Col(c)>>, FALSE))
+        \o MapS(hid, LAMBDA c : MRename(i, <<[c |-> Col(c), n |-> "zz"]>>))                        \* rename a hidden column through its reference
         \o <<MSelect(i, <<Col(999)>>), MRename(i, <<[c |-> [k |-> "str", n |-> "zz"], n |-> "y"]>>)>>
         \o (IF Len(t.vis) >= 2 THEN <<MRename(i, <<[c |-> Col(t.vis[1]), n |-> t.nm[t.vis[2]]]>>)>> ELSE <<>>)   \* duplicate name
         \o MapS(a, LAMBDA c : MArrange(i, <<Ord(Fn2("add", Col(c), CN("zz")), FALSE, "first")>>))
